@@ -553,7 +553,9 @@ def run(tier, seed):
             continue
         counts["banks"] += 1
         counts["defaults"] = counts.get("defaults", 0) + 1
-        visit(bank, spec, range(spec["num_filts"]))
+        n = spec["num_filts"]
+        visit(bank, spec, range(n), mults=((1, 0), (1, 1), (2, 0)))
+        visit(bank, spec, sorted({0, 1, n // 2, n - 2, n - 1} | set(left_heavy(bank, n)[:3] if spec["bank"] == "tri" else [])), mults=((4, 0),))
 
     # --- B. Bark banks whose filters straddle a break point of the scale (rarely taken path of the triangular
     #        impulse response): num_filts 16..18 at 8 kHz with every filter, then a sweep over num_filts and
@@ -664,7 +666,8 @@ def run(tier, seed):
     col.note(
         f"default configurations (40 filters, 16 kHz, 20 Hz..Nyquist, every bank class x scale, all filters): {counts.get('defaults', 0)}/{len(defaults)}; "
         f"Bark break-point sweep: {counts.get('sweep_banks', 0)}/{len(sweep)} banks, {counts.get('sweep_left', 0)} filters found on the left-heavy path; "
-        f"sessions (one bank object, many requests): {n_sessions} with {counts.get('session_requests', 0)} requests"
+        f"sessions (one bank object, many requests): {n_sessions} with {counts.get('session_requests', 0)} requests; "
+        + "wall per phase: " + ", ".join(f"{k} {v:.1f} s" for k, v in phase_t.items())
     )
     col.note(
         "triangular impulse response, distinct (bank, filter) checked per code path [right-heavy: right-mid > mid-left | else (of which the halves differ by > 1e-6, smallest (right-mid)/(mid-left))]: "
